@@ -1,55 +1,67 @@
 import HioModel.Timer.Spec
+import Mathlib.Tactic.Linarith
+import Mathlib.Tactic.Ring
+import Mathlib.Algebra.Order.Ring.Defs
+import Mathlib.Algebra.Order.Ring.Int
+import Mathlib.Algebra.Order.Ring.Rat
 /-!
 # Helper lemmas for the timer model (C07, C08)
 -/
 namespace Hio.Timer
 
+/-! Every lemma is over an arbitrary linearly ordered commutative ring `τ` of time values (`τ`, `Rat`, `Real`, …). -/
+variable {τ : Type} [CommRing τ] [LinearOrder τ] [IsStrictOrderedRing τ]
+
+/-- linear arithmetic with `max`: split every `max`, then `linarith` -/
+macro "oarith" : tactic =>
+  `(tactic| first | linarith | (simp only [max_def] at * <;> split_ifs at * <;> linarith))
+
 /-! ## MonoTimer: one clock reading -/
 
 /-- relation between a timer before and after it has seen the reading `r` -/
-structure Mono.Step (m : Mono) (r : Int) (m' : Mono) : Prop where
+structure Mono.Step (m : Mono τ) (r : τ) (m' : Mono τ) : Prop where
   last : m'.last = r
   retro : m'.retro = m.retro
   rem : m'.stop - m'.last = m.stop - m.last - max 0 (r - m.last)
   ela : m'.last - m'.start = m.last - m.start + max 0 (r - m.last)
 
-theorem Mono.Step.dur {m m' : Mono} {r : Int} (h : Mono.Step m r m') : m'.stop - m'.start = m.stop - m.start := by
-  have := h.rem; have := h.ela; omega
+theorem Mono.Step.dur {m m' : Mono τ} {r : τ} (h : Mono.Step m r m') : m'.stop - m'.start = m.stop - m.start := by
+  have := h.rem; have := h.ela; oarith
 
-theorem Mono.latest_ok {m m' : Mono} {r l : Int} (h : m.latest r = .ok (l, m')) : l = r ∧ Mono.Step m r m' := by
+theorem Mono.latest_ok {m m' : Mono τ} {r l : τ} (h : m.latest r = .ok (l, m')) : l = r ∧ Mono.Step m r m' := by
   unfold Mono.latest at h
   simp only at h
   split at h
   · split at h
     · injection h with h; injection h with h1 h2
       subst h2
-      refine ⟨by omega, ⟨by dsimp only; omega, rfl, by dsimp only; omega, by dsimp only; omega⟩⟩
+      refine ⟨by oarith, ⟨by dsimp only; oarith, rfl, by dsimp only; oarith, by dsimp only; oarith⟩⟩
     · cases h
   · injection h with h; injection h with h1 h2
     subst h2
-    refine ⟨by omega, ⟨by dsimp only; omega, rfl, by dsimp only; omega, by dsimp only; omega⟩⟩
+    refine ⟨by oarith, ⟨by dsimp only; oarith, rfl, by dsimp only; oarith, by dsimp only; oarith⟩⟩
 
-theorem Mono.latest_retro (m : Mono) (r : Int) (h : m.retro = true) : ∃ m', m.latest r = .ok (r, m') := by
-  have e : m.last + (r - m.last) = r := by omega
+theorem Mono.latest_retro (m : Mono τ) (r : τ) (h : m.retro = true) : ∃ m', m.latest r = .ok (r, m') := by
+  have e : m.last + (r - m.last) = r := by oarith
   unfold Mono.latest
   simp only [h, e]
   split <;> exact ⟨_, rfl⟩
 
-theorem Mono.expired_retro (m : Mono) (r : Int) (h : m.retro = true) :
+theorem Mono.expired_retro (m : Mono τ) (r : τ) (h : m.retro = true) :
     ∃ m', m.expired r = .ok (decide (m'.stop ≤ m'.last), m') ∧ Mono.Step m r m' := by
   obtain ⟨m', hl⟩ := m.latest_retro r h
   have hs := (Mono.latest_ok hl).2
   refine ⟨m', ?_, hs⟩
   simp only [Mono.expired, hl, hs.last, ge_iff_le]
 
-theorem Mono.remaining_retro (m : Mono) (r : Int) (h : m.retro = true) :
+theorem Mono.remaining_retro (m : Mono τ) (r : τ) (h : m.retro = true) :
     ∃ m', m.remaining r = .ok (m'.stop - m'.last, m') ∧ Mono.Step m r m' := by
   obtain ⟨m', hl⟩ := m.latest_retro r h
   have hs := (Mono.latest_ok hl).2
   refine ⟨m', ?_, hs⟩
   simp only [Mono.remaining, hl, hs.last]
 
-theorem Mono.elapsed_retro (m : Mono) (r : Int) (h : m.retro = true) :
+theorem Mono.elapsed_retro (m : Mono τ) (r : τ) (h : m.retro = true) :
     ∃ m', m.elapsed r = .ok (m'.last - m'.start, m') ∧ Mono.Step m r m' := by
   obtain ⟨m', hl⟩ := m.latest_retro r h
   have hs := (Mono.latest_ok hl).2
@@ -60,13 +72,13 @@ theorem Mono.elapsed_retro (m : Mono) (r : Int) (h : m.retro = true) :
 /-! ## C07: never early -/
 
 /-- accumulators of `neverEarlyFrom` after a piece of log -/
-def accF : Int → Int → List Ev → Int × Int
+def accF : τ → τ → List (Ev τ) → τ × τ
   | F, ℓ, [] => (F, ℓ)
   | F, ℓ, .t r :: es => accF (F + max 0 (r - ℓ)) r es
   | F, ℓ, .x r :: es => accF (F + max 0 (r - ℓ)) r es
   | F, ℓ, _ :: es => accF F ℓ es
 
-theorem neverEarlyFrom_append (tock : Int) : ∀ (a b : List Ev) (F ℓ : Int),
+theorem neverEarlyFrom_append (tock : τ) : ∀ (a b : List (Ev τ)) (F ℓ : τ),
     neverEarlyFrom tock F ℓ (a ++ b) ↔
       neverEarlyFrom tock F ℓ a ∧ neverEarlyFrom tock (accF F ℓ a).1 (accF F ℓ a).2 b
   | [], b, F, ℓ => by simp [neverEarlyFrom, accF]
@@ -77,7 +89,7 @@ theorem neverEarlyFrom_append (tock : Int) : ∀ (a b : List Ev) (F ℓ : Int),
     simp only [List.cons_append, neverEarlyFrom, accF, and_assoc]
     rw [neverEarlyFrom_append tock a b F ℓ]
 
-theorem accF_append : ∀ (a b : List Ev) (F ℓ : Int),
+theorem accF_append : ∀ (a b : List (Ev τ)) (F ℓ : τ),
     accF F ℓ (a ++ b) = accF (accF F ℓ a).1 (accF F ℓ a).2 b
   | [], b, F, ℓ => rfl
   | .t r :: a, b, F, ℓ => by simp only [List.cons_append, accF]; exact accF_append a b _ _
@@ -87,24 +99,24 @@ theorem accF_append : ∀ (a b : List Ev) (F ℓ : Int),
 
 /-- the invariant of the pacing loop for `never_early`: `D` is the current deadline `(k+1) * tock` in elapsed-real-time
 coordinates, `F` the elapsed real time over all readings, `ℓ` the last reading anybody made -/
-structure NEinv (m : Mono) (tock D F ℓ : Int) : Prop where
+structure NEinv (m : Mono τ) (tock D F ℓ : τ) : Prop where
   retro : m.retro = true
   dur : m.stop - m.start = tock
   slack : max 0 (ℓ - m.last) ≤ F + (m.stop - m.last) - D
 
-theorem NEinv.step {m m' : Mono} {tock D F ℓ r : Int} (h : NEinv m tock D F ℓ) (hs : Mono.Step m r m') :
+theorem NEinv.step {m m' : Mono τ} {tock D F ℓ r : τ} (h : NEinv m tock D F ℓ) (hs : Mono.Step m r m') :
     NEinv m' tock D (F + max 0 (r - ℓ)) r := by
   refine ⟨by rw [hs.retro, h.retro], by rw [hs.dur, h.dur], ?_⟩
   have := h.slack; have := hs.rem; have := hs.last
-  omega
+  oarith
 
-theorem NEinv.xstep {m : Mono} {tock D F ℓ r : Int} (h : NEinv m tock D F ℓ) :
+theorem NEinv.xstep {m : Mono τ} {tock D F ℓ r : τ} (h : NEinv m tock D F ℓ) :
     NEinv m tock D (F + max 0 (r - ℓ)) r := by
   refine ⟨h.retro, h.dur, ?_⟩
   have := h.slack
-  omega
+  oarith
 
-theorem xreads_ne {σ} (clk : Clock σ) (tock D : Int) (m : Mono) : ∀ (x : Nat) (c : σ) (F ℓ : Int),
+theorem xreads_ne {σ} (clk : Clock τ σ) (tock D : τ) (m : Mono τ) : ∀ (x : Nat) (c : σ) (F ℓ : τ),
     NEinv m tock D F ℓ →
     neverEarlyFrom tock F ℓ (xreads clk x c).1 ∧
       NEinv m tock D (accF F ℓ (xreads clk x c).1).1 (accF F ℓ (xreads clk x c).1).2
@@ -118,7 +130,7 @@ theorem xreads_ne {σ} (clk : Clock σ) (tock D : Int) (m : Mono) : ∀ (x : Nat
       simp only [neverEarlyFrom, accF]
       exact xreads_ne clk tock D m x c1 _ _ h.xstep
 
-theorem wait_ne {σ} (clk : Clock σ) (tock D : Int) : ∀ (fuel : Nat) (m : Mono) (c : σ) (F ℓ : Int),
+theorem wait_ne {σ} (clk : Clock τ σ) (tock D : τ) : ∀ (fuel : Nat) (m : Mono τ) (c : σ) (F ℓ : τ),
     NEinv m tock D F ℓ →
     neverEarlyFrom tock F ℓ (wait clk fuel m c).1 ∧
       ∀ m' c', (wait clk fuel m c).2 = .ok (m', c') →
@@ -150,18 +162,18 @@ theorem wait_ne {σ} (clk : Clock σ) (tock D : Int) : ∀ (fuel : Nat) (m : Mon
           exact wait_ne clk tock D fuel m2 _ _ _ h2
 
 
-theorem NEinv.restart {m : Mono} {tock D F ℓ : Int} (h : NEinv m tock D F ℓ) :
+theorem NEinv.restart {m : Mono τ} {tock D F ℓ : τ} (h : NEinv m tock D F ℓ) :
     NEinv (m.restart none) tock (D + tock) F ℓ := by
   have := h.slack; have := h.dur
   refine ⟨h.retro, ?_, ?_⟩
-  · simp only [Mono.restart, Mono.startAt, Mono.duration, durOr]; omega
-  · simp only [Mono.restart, Mono.startAt, Mono.duration, durOr]; omega
+  · simp only [Mono.restart, Mono.startAt, Mono.duration, durOr]; oarith
+  · simp only [Mono.restart, Mono.startAt, Mono.duration, durOr]; oarith
 
-theorem succ_mul_tock (k : Nat) (tock : Int) : (((k + 1 : Nat) : Int) + 1) * tock = ((k : Int) + 1) * tock + tock := by
-  rw [Int.add_mul ((k + 1 : Nat) : Int) 1 tock]; simp
+theorem succ_mul_tock (k : Nat) (tock : τ) : ((k + 1 + 1 : Nat) : τ) * tock = ((k + 1 : Nat) : τ) * tock + tock := by
+  push_cast; ring
 
-theorem cycles_ne {σ} (clk : Clock σ) (fuel : Nat) (tock : Int) : ∀ (n k : Nat) (m : Mono) (c : σ) (xs : List Nat) (F ℓ : Int),
-    NEinv m tock (((k : Int) + 1) * tock) F ℓ → (1 ≤ k → (k : Int) * tock ≤ F) →
+theorem cycles_ne {σ} (clk : Clock τ σ) (fuel : Nat) (tock : τ) : ∀ (n k : Nat) (m : Mono τ) (c : σ) (xs : List Nat) (F ℓ : τ),
+    NEinv m tock (((k + 1 : Nat) : τ) * tock) F ℓ → (1 ≤ k → (k : τ) * tock ≤ F) →
     neverEarlyFrom tock F ℓ (cycles clk fuel n k m c xs).1
   | 0, k, m, c, xs, F, ℓ, _, _ => by simp [cycles, neverEarlyFrom]
   | n + 1, k, m, c, xs, F, ℓ, h, hk => by
@@ -186,17 +198,15 @@ theorem cycles_ne {σ} (clk : Clock σ) (fuel : Nat) (tock : Int) : ∀ (n k : N
         apply cycles_ne clk fuel tock n (k + 1) _ c2 xs.tail _ _ hr
         intro _
         have := hi.slack
-        have e : ((k + 1 : Nat) : Int) * tock = ((k : Int) + 1) * tock := by simp
-        rw [e]
-        omega
+        oarith
 
 /-- the first `self.timer.start(duration=self.tock)` of the run establishes the invariant, whatever the timer was before
 (the only thing that survives from before the run is `retro`) -/
-theorem NEinv.init (m : Mono) (tock r0 : Int) (h : m.retro = true) :
-    NEinv (m.startNow (some tock) r0) tock ((((0 : Nat) : Int) + 1) * tock) 0 r0 := by
-  refine ⟨h, ?_, ?_⟩ <;> simp [Mono.startNow, Mono.startAt, durOr] <;> omega
+theorem NEinv.init (m : Mono τ) (tock r0 : τ) (h : m.retro = true) :
+    NEinv (m.startNow (some tock) r0) tock (((0 + 1 : Nat) : τ) * tock) 0 r0 := by
+  refine ⟨h, ?_, ?_⟩ <;> simp [Mono.startNow, Mono.startAt, durOr] <;> oarith
 
-theorem doRun_neverEarly {σ} (clk : Clock σ) (fuel : Nat) (m : Mono) (c : σ) (tock : Int) (n : Nat) (xs : List Nat)
+theorem doRun_neverEarly {σ} (clk : Clock τ σ) (fuel : Nat) (m : Mono τ) (c : σ) (tock : τ) (n : Nat) (xs : List Nat)
     (h : m.retro = true) : NeverEarly tock (doRun clk fuel m c tock n xs).1 := by
   unfold doRun
   cases hr : clk.read c with
@@ -204,24 +214,24 @@ theorem doRun_neverEarly {σ} (clk : Clock σ) (fuel : Nat) (m : Mono) (c : σ) 
   | some p =>
     obtain ⟨r0, c1⟩ := p
     simp only [NeverEarly]
-    exact cycles_ne clk fuel tock n 0 _ c1 xs 0 r0 (NEinv.init m tock r0 h) (by omega)
+    exact cycles_ne clk fuel tock n 0 _ c1 xs 0 r0 (NEinv.init m tock r0 h) (by intro h0; exact absurd h0 (by decide))
 
 
 /-- scanning form ⇒ prefix form: whenever `recur k` (k ≥ 1) appears in the log, the elapsed real time over the readings
 before it is at least `k * tock` -/
-theorem neverEarlyFrom_prefix (tock : Int) : ∀ (pre post : List Ev) (k : Nat) (F ℓ : Int),
-    neverEarlyFrom tock F ℓ (pre ++ .c k :: post) → 1 ≤ k → (k : Int) * tock ≤ F + realElapsed ℓ (readingsOf pre)
+theorem neverEarlyFrom_prefix (tock : τ) : ∀ (pre post : List (Ev τ)) (k : Nat) (F ℓ : τ),
+    neverEarlyFrom tock F ℓ (pre ++ .c k :: post) → 1 ≤ k → (k : τ) * tock ≤ F + realElapsed ℓ (readingsOf pre)
   | [], post, k, F, ℓ, h, hk => by
     simp only [List.nil_append, neverEarlyFrom] at h
     simpa [readingsOf, realElapsed] using h.1 hk
   | .t r :: pre, post, k, F, ℓ, h, hk => by
     simp only [List.cons_append, neverEarlyFrom] at h
     have := neverEarlyFrom_prefix tock pre post k _ _ h hk
-    simp only [readingsOf, realElapsed]; omega
+    simp only [readingsOf, realElapsed]; oarith
   | .x r :: pre, post, k, F, ℓ, h, hk => by
     simp only [List.cons_append, neverEarlyFrom] at h
     have := neverEarlyFrom_prefix tock pre post k _ _ h hk
-    simp only [readingsOf, realElapsed]; omega
+    simp only [readingsOf, realElapsed]; oarith
   | .s d :: pre, post, k, F, ℓ, h, hk => by
     simp only [List.cons_append, neverEarlyFrom] at h
     simpa [readingsOf] using neverEarlyFrom_prefix tock pre post k _ _ h hk
@@ -232,14 +242,14 @@ theorem neverEarlyFrom_prefix (tock : Int) : ∀ (pre post : List Ev) (k : Nat) 
 /-! ## C07: lossless -/
 
 /-- accumulators of `losslessFrom` after a piece of log -/
-def accL : Int → Int → Nat → List Ev → Int × Int × Nat
+def accL : τ → τ → Nat → List (Ev τ) → τ × τ × Nat
   | E, lt, k, [] => (E, lt, k)
   | E, lt, k, .t r :: es => accL (E + max 0 (r - lt)) r k es
   | E, lt, k, .x _ :: es => accL E lt k es
   | E, lt, k, .s _ :: es => accL E lt k es
   | E, lt, _, .c k :: es => accL E lt k es
 
-theorem losslessFrom_append (tock : Int) : ∀ (a b : List Ev) (E lt : Int) (k : Nat),
+theorem losslessFrom_append (tock : τ) : ∀ (a b : List (Ev τ)) (E lt : τ) (k : Nat),
     losslessFrom tock E lt k (a ++ b) ↔
       losslessFrom tock E lt k a ∧ losslessFrom tock (accL E lt k a).1 (accL E lt k a).2.1 (accL E lt k a).2.2 b
   | [], b, E, lt, k => by simp [losslessFrom, accL]
@@ -254,26 +264,26 @@ theorem losslessFrom_append (tock : Int) : ∀ (a b : List Ev) (E lt : Int) (k :
 
 /-- the invariant of the pacing loop for `lossless`: `D` = current deadline `(k+1) * tock`, `E` = elapsed real time over
 the timer's own readings, `lt` = the timer's last reading -/
-structure LLinv (m : Mono) (tock D E lt : Int) : Prop where
+structure LLinv (m : Mono τ) (tock D E lt : τ) : Prop where
   retro : m.retro = true
   dur : m.stop - m.start = tock
   last : m.last = lt
   rem : m.stop - m.last = D - E
 
-theorem LLinv.step {m m' : Mono} {tock D E lt r : Int} (h : LLinv m tock D E lt) (hs : Mono.Step m r m') :
+theorem LLinv.step {m m' : Mono τ} {tock D E lt r : τ} (h : LLinv m tock D E lt) (hs : Mono.Step m r m') :
     LLinv m' tock D (E + max 0 (r - lt)) r := by
   refine ⟨by rw [hs.retro, h.retro], by rw [hs.dur, h.dur], hs.last, ?_⟩
   have := h.rem; have := hs.rem; have := h.last
-  omega
+  oarith
 
-theorem LLinv.restart {m : Mono} {tock D E lt : Int} (h : LLinv m tock D E lt) :
+theorem LLinv.restart {m : Mono τ} {tock D E lt : τ} (h : LLinv m tock D E lt) :
     LLinv (m.restart none) tock (D + tock) E lt := by
   have := h.rem; have := h.dur
   refine ⟨h.retro, ?_, h.last, ?_⟩
-  · simp only [Mono.restart, Mono.startAt, Mono.duration, durOr]; omega
-  · simp only [Mono.restart, Mono.startAt, Mono.duration, durOr]; omega
+  · simp only [Mono.restart, Mono.startAt, Mono.duration, durOr]; oarith
+  · simp only [Mono.restart, Mono.startAt, Mono.duration, durOr]; oarith
 
-theorem xreads_ll {σ} (clk : Clock σ) (tock : Int) : ∀ (x : Nat) (c : σ) (E lt : Int) (k : Nat),
+theorem xreads_ll {σ} (clk : Clock τ σ) (tock : τ) : ∀ (x : Nat) (c : σ) (E lt : τ) (k : Nat),
     losslessFrom tock E lt k (xreads clk x c).1 ∧ accL E lt k (xreads clk x c).1 = (E, lt, k)
   | 0, c, E, lt, k => by simp [xreads, losslessFrom, accL]
   | x + 1, c, E, lt, k => by
@@ -285,12 +295,12 @@ theorem xreads_ll {σ} (clk : Clock σ) (tock : Int) : ∀ (x : Nat) (c : σ) (E
       simp only [losslessFrom, accL]
       exact xreads_ll clk tock x c1 E lt k
 
-theorem wait_ll {σ} (clk : Clock σ) (tock : Int) (k : Nat) : ∀ (fuel : Nat) (m : Mono) (c : σ) (E lt : Int),
-    LLinv m tock (((k : Int) + 1) * tock) E lt →
+theorem wait_ll {σ} (clk : Clock τ σ) (tock : τ) (k : Nat) : ∀ (fuel : Nat) (m : Mono τ) (c : σ) (E lt : τ),
+    LLinv m tock (((k + 1 : Nat) : τ) * tock) E lt →
     losslessFrom tock E lt k (wait clk fuel m c).1 ∧
       (accL E lt k (wait clk fuel m c).1).2.2 = k ∧
       ∀ m' c', (wait clk fuel m c).2 = .ok (m', c') →
-        LLinv m' tock (((k : Int) + 1) * tock) (accL E lt k (wait clk fuel m c).1).1 (accL E lt k (wait clk fuel m c).1).2.1
+        LLinv m' tock (((k + 1 : Nat) : τ) * tock) (accL E lt k (wait clk fuel m c).1).1 (accL E lt k (wait clk fuel m c).1).2.1
           ∧ m'.stop ≤ m'.last
   | 0, m, c, E, lt, h => by simp [wait, losslessFrom, accL]
   | fuel + 1, m, c, E, lt, h => by
@@ -319,8 +329,8 @@ theorem wait_ll {σ} (clk : Clock σ) (tock : Int) (k : Nat) : ∀ (fuel : Nat) 
           refine ⟨⟨?_, (wait_ll clk tock k fuel m2 _ _ _ h2).1⟩, (wait_ll clk tock k fuel m2 _ _ _ h2).2⟩
           rw [h2.rem]
 
-theorem cycles_ll {σ} (clk : Clock σ) (fuel : Nat) (tock : Int) : ∀ (n k : Nat) (m : Mono) (c : σ) (xs : List Nat) (E lt : Int) (j : Nat),
-    LLinv m tock (((k : Int) + 1) * tock) E lt → (1 ≤ k → (k : Int) * tock ≤ E) →
+theorem cycles_ll {σ} (clk : Clock τ σ) (fuel : Nat) (tock : τ) : ∀ (n k : Nat) (m : Mono τ) (c : σ) (xs : List Nat) (E lt : τ) (j : Nat),
+    LLinv m tock (((k + 1 : Nat) : τ) * tock) E lt → (1 ≤ k → (k : τ) * tock ≤ E) →
     losslessFrom tock E lt j (cycles clk fuel n k m c xs).1
   | 0, k, m, c, xs, E, lt, j, _, _ => by simp [cycles, losslessFrom]
   | n + 1, k, m, c, xs, E, lt, j, h, hk => by
@@ -348,15 +358,13 @@ theorem cycles_ll {σ} (clk : Clock σ) (fuel : Nat) (tock : Int) : ∀ (n k : N
         apply cycles_ll clk fuel tock n (k + 1) _ c2 xs.tail _ _ _ hr
         intro _
         have := hi.rem
-        have e : ((k + 1 : Nat) : Int) * tock = ((k : Int) + 1) * tock := by simp
-        rw [e]
-        omega
+        oarith
 
-theorem LLinv.init (m : Mono) (tock r0 : Int) (h : m.retro = true) :
-    LLinv (m.startNow (some tock) r0) tock ((((0 : Nat) : Int) + 1) * tock) 0 r0 := by
-  refine ⟨h, ?_, ?_, ?_⟩ <;> simp [Mono.startNow, Mono.startAt, durOr] <;> omega
+theorem LLinv.init (m : Mono τ) (tock r0 : τ) (h : m.retro = true) :
+    LLinv (m.startNow (some tock) r0) tock (((0 + 1 : Nat) : τ) * tock) 0 r0 := by
+  refine ⟨h, ?_, ?_, ?_⟩ <;> simp [Mono.startNow, Mono.startAt, durOr] <;> oarith
 
-theorem doRun_lossless {σ} (clk : Clock σ) (fuel : Nat) (m : Mono) (c : σ) (tock : Int) (n : Nat) (xs : List Nat)
+theorem doRun_lossless {σ} (clk : Clock τ σ) (fuel : Nat) (m : Mono τ) (c : σ) (tock : τ) (n : Nat) (xs : List Nat)
     (h : m.retro = true) : Lossless tock (doRun clk fuel m c tock n xs).1 := by
   unfold doRun
   cases hr : clk.read c with
@@ -364,29 +372,29 @@ theorem doRun_lossless {σ} (clk : Clock σ) (fuel : Nat) (m : Mono) (c : σ) (t
   | some p =>
     obtain ⟨r0, c1⟩ := p
     simp only [Lossless]
-    exact cycles_ll clk fuel tock n 0 _ c1 xs 0 r0 0 (LLinv.init m tock r0 h) (by omega)
+    exact cycles_ll clk fuel tock n 0 _ c1 xs 0 r0 0 (LLinv.init m tock r0 h) (by intro h0; exact absurd h0 (by decide))
 
 
 /-- the cycle a log position belongs to: the last `recur k` seen (or `k0`) -/
-def cycleOf : Nat → List Ev → Nat
+def cycleOf : Nat → List (Ev τ) → Nat
   | k, [] => k
   | _, .c j :: es => cycleOf j es
   | k, _ :: es => cycleOf k es
 
 /-- scanning form ⇒ prefix form: every sleep request equals the time left to the deadline `(k+1) * tock` of the running
 cycle `k`, measured from the start of the run over the timer's own readings -/
-theorem losslessFrom_prefix (tock : Int) : ∀ (pre post : List Ev) (d E lt : Int) (k : Nat),
+theorem losslessFrom_prefix (tock : τ) : ∀ (pre post : List (Ev τ)) (d E lt : τ) (k : Nat),
     losslessFrom tock E lt k (pre ++ .s d :: post) →
-      d = max 0 (((cycleOf k pre : Nat) : Int) * tock + tock - (E + realElapsed lt (timerReadingsOf pre)))
+      d = max 0 (((cycleOf k pre : Nat) : τ) * tock + tock - (E + realElapsed lt (timerReadingsOf pre)))
   | [], post, d, E, lt, k, h => by
     simp only [List.nil_append, losslessFrom] at h
     have := h.1
-    rw [Int.add_mul] at this
-    simp only [cycleOf, timerReadingsOf, realElapsed]; omega
+    simp only [cycleOf, timerReadingsOf, realElapsed]
+    rw [this]; push_cast; congr 1; ring
   | .t r :: pre, post, d, E, lt, k, h => by
     simp only [List.cons_append, losslessFrom] at h
     have := losslessFrom_prefix tock pre post d _ _ k h
-    simp only [cycleOf, timerReadingsOf, realElapsed]; omega
+    simp only [cycleOf, timerReadingsOf, realElapsed]; oarith
   | .x r :: pre, post, d, E, lt, k, h => by
     simp only [List.cons_append, losslessFrom] at h
     simpa [cycleOf, timerReadingsOf] using losslessFrom_prefix tock pre post d _ _ k h
@@ -399,7 +407,7 @@ theorem losslessFrom_prefix (tock : Int) : ∀ (pre post : List Ev) (d E lt : In
 
 /-! ## the timer `do()` finds: built by `Doist.__init__`, possibly peeked at -/
 
-theorem Mono.new_retro {σ} (clk : Clock σ) (c : σ) (dur : Int) (start : Option Int) (retro : Bool) (rs : List Int) (m : Mono) (c' : σ)
+theorem Mono.new_retro {σ} (clk : Clock τ σ) (c : σ) (dur : τ) (start : Option τ) (retro : Bool) (rs : List τ) (m : Mono τ) (c' : σ)
     (h : Mono.new clk c dur start retro = (rs, some (m, c'))) : m.retro = retro := by
   unfold Mono.new at h
   split at h
@@ -410,7 +418,7 @@ theorem Mono.new_retro {σ} (clk : Clock σ) (c : σ) (dur : Int) (start : Optio
       · cases h
       · injection h with _ h; injection h with h; injection h with h _; subst h; rfl
 
-theorem preRun_retro {σ} (clk : Clock σ) : ∀ (ps : List PreOp) (m : Mono) (c : σ) (tock : Int) (m' : Mono) (c' : σ) (tock' : Int),
+theorem preRun_retro {σ} (clk : Clock τ σ) : ∀ (ps : List (PreOp τ)) (m : Mono τ) (c : σ) (tock : τ) (m' : Mono τ) (c' : σ) (tock' : τ),
     (preRun clk ps m c tock).2 = some (m', c', tock') → m'.retro = m.retro
   | [], m, c, tock, m', c', tock', h => by
     simp only [preRun] at h; injection h with h; injection h with h _; rw [h]
@@ -434,12 +442,12 @@ theorem preRun_retro {σ} (clk : Clock σ) : ∀ (ps : List PreOp) (m : Mono) (c
         exact preRun_retro clk ps m1 _ tock m' c' tock' h
 
 /-- `doist.tock` when `do()` is called: the last value assigned, else the construction value -/
-def tockAtRun (tock : Int) : List PreOp → Int
+def tockAtRun (tock : τ) : List (PreOp τ) → τ
   | [] => tock
   | .setTock v :: ps => tockAtRun v ps
   | .peek :: ps => tockAtRun tock ps
 
-theorem preRun_tock {σ} (clk : Clock σ) : ∀ (ps : List PreOp) (m : Mono) (c : σ) (tock : Int) (m' : Mono) (c' : σ) (tock' : Int),
+theorem preRun_tock {σ} (clk : Clock τ σ) : ∀ (ps : List (PreOp τ)) (m : Mono τ) (c : σ) (tock : τ) (m' : Mono τ) (c' : σ) (tock' : τ),
     (preRun clk ps m c tock).2 = some (m', c', tock') → tock' = tockAtRun tock ps
   | [], m, c, tock, m', c', tock', h => by
     simp only [preRun] at h; injection h with h; injection h with _ h; injection h with _ h; rw [h]; rfl
@@ -454,16 +462,16 @@ theorem preRun_tock {σ} (clk : Clock σ) : ∀ (ps : List PreOp) (m : Mono) (c 
       · exact preRun_tock clk ps _ _ tock m' c' tock' h
 
 /-- `paceRun` either never reaches `do()` (empty run log) or is `doRun` from a retro timer with the tock then in force -/
-theorem paceRun_cases {σ} (clk : Clock σ) (fuel : Nat) (c : σ) (tock0 : Option Int) (pre : List PreOp) (n : Nat) (xs : List Nat)
+theorem paceRun_cases {σ} (dflt : τ) (clk : Clock τ σ) (fuel : Nat) (c : σ) (tock0 : Option τ) (pre : List (PreOp τ)) (n : Nat) (xs : List Nat)
     (hd : Gen.monoRetroDefault = true) :
-    ((paceRun clk fuel c tock0 pre n xs).run = [] ∧ (paceRun clk fuel c tock0 pre n xs).tock = none) ∨
+    ((paceRun dflt clk fuel c tock0 pre n xs).run = [] ∧ (paceRun dflt clk fuel c tock0 pre n xs).tock = none) ∨
     ∃ m c', m.retro = true ∧
-      (paceRun clk fuel c tock0 pre n xs).tock = some (tockAtRun (tockOr tock0) pre) ∧
-      (paceRun clk fuel c tock0 pre n xs).run =
-        (doRun clk fuel m c' (tockAtRun (tockOr tock0) pre) n xs).1 := by
+      (paceRun dflt clk fuel c tock0 pre n xs).tock = some (tockAtRun (tockOr dflt tock0) pre) ∧
+      (paceRun dflt clk fuel c tock0 pre n xs).run =
+        (doRun clk fuel m c' (tockAtRun (tockOr dflt tock0) pre) n xs).1 := by
   unfold paceRun
   dsimp only
-  cases hn : Mono.new clk c (tockOr tock0) none Gen.monoRetroDefault with
+  cases hn : Mono.new clk c (tockOr dflt tock0) none Gen.monoRetroDefault with
   | mk rs o =>
     cases o with
     | none => left; exact ⟨rfl, rfl⟩
@@ -471,14 +479,14 @@ theorem paceRun_cases {σ} (clk : Clock σ) (fuel : Nat) (c : σ) (tock0 : Optio
       obtain ⟨m, c1⟩ := p
       dsimp only
       have hm : m.retro = true := by rw [Mono.new_retro clk c _ none _ rs m c1 hn, hd]
-      cases hp : preRun clk pre m c1 (tockOr tock0) with
+      cases hp : preRun clk pre m c1 (tockOr dflt tock0) with
       | mk pe o2 =>
         cases o2 with
         | none => left; exact ⟨rfl, rfl⟩
         | some q =>
           obtain ⟨m2, c2, tock⟩ := q
           right
-          have h2 : (preRun clk pre m c1 (tockOr tock0)).2 = some (m2, c2, tock) := by rw [hp]
+          have h2 : (preRun clk pre m c1 (tockOr dflt tock0)).2 = some (m2, c2, tock) := by rw [hp]
           have ht := preRun_tock clk pre m c1 _ m2 c2 tock h2
           have hr := preRun_retro clk pre m c1 _ m2 c2 tock h2
           refine ⟨m2, c2, by rw [hr, hm], ?_, ?_⟩
@@ -488,30 +496,30 @@ theorem paceRun_cases {σ} (clk : Clock σ) (fuel : Nat) (c : σ) (tock0 : Optio
 
 /-! ## C08: the virtual Tymer refines the reference timer -/
 
-structure TSim (t : Tymer) (r : TRef) : Prop where
+structure TSim (t : Tymer τ) (r : TRef τ) : Prop where
   wound : t.wound = r.wound
   start : t.start = r.start
   stop : t.stop = r.start + r.dur
 
-theorem tsnap_eq_report (w : TWorld) (t : Tymer) (r : TRef) (h : TSim t r) (ret : Option Int) :
+theorem tsnap_eq_report (w : TWorld τ) (t : Tymer τ) (r : TRef τ) (h : TSim t r) (ret : Option τ) :
     tsnap w t ret = r.report w ret := by
   obtain ⟨hw, hs, hp⟩ := h
-  have hd : t.stop - t.start = r.dur := by omega
+  have hd : t.stop - t.start = r.dur := by oarith
   unfold tsnap TRef.report Tymer.elapsed Tymer.remaining Tymer.expired Tymer.now TRef.now Tymer.duration
   rw [hw, hd, hs, hp]
   cases r.wound <;> rfl
 
-theorem TSim.new (w : TWorld) (wound : Option Nat) (dur start : Option Int) :
-    TSim (Tymer.new w wound dur start) (TRef.new w wound dur start) := by
+theorem TSim.new (ddur : τ) (w : TWorld τ) (wound : Option Nat) (dur start : Option τ) :
+    TSim (Tymer.new ddur w wound dur start) (TRef.new ddur w wound dur start) := by
   refine ⟨rfl, ?_, ?_⟩
   · cases start <;> cases wound <;> rfl
   · cases start <;> cases wound <;> cases dur <;> rfl
 
-theorem trun_eq_rrun : ∀ (ops : List TOp) (w : TWorld) (t : Tymer) (r : TRef), TSim t r → trun w t ops = rrun w r ops
+theorem trun_eq_rrun : ∀ (ops : List (TOp τ)) (w : TWorld τ) (t : Tymer τ) (r : TRef τ), TSim t r → trun w t ops = rrun w r ops
   | [], w, t, r, h => rfl
   | op :: ops, w, t, r, h => by
     obtain ⟨hw, hs, hp⟩ := h
-    have hd : t.duration = r.dur := by unfold Tymer.duration; omega
+    have hd : t.duration = r.dur := by unfold Tymer.duration; oarith
     cases op with
     | setTyme i v =>
       simp only [trun, rrun, tstep, rstep]
@@ -547,14 +555,14 @@ theorem trun_eq_rrun : ∀ (ops : List TOp) (w : TWorld) (t : Tymer) (r : TRef),
       rw [tsnap_eq_report _ _ _ hsim, trun_eq_rrun ops _ _ _ hsim]
 
 
-theorem nat_succ_mul (k : Nat) (D : Int) : ((k + 1 : Nat) : Int) * D = (k : Int) * D + D := by
-  rw [Int.natCast_add, Int.add_mul]; simp
+theorem nat_succ_mul (k : Nat) (D : τ) : ((k + 1 : Nat) : τ) * D = (k : τ) * D + D := by
+  push_cast; ring
 
 /-- tyme changes and plain restarts, in any number and order: `k` restarts move start and stop by exactly `k` durations -/
-theorem texec_restarts (D : Int) : ∀ (ops : List TOp) (w : TWorld) (t : Tymer),
+theorem texec_restarts (D : τ) : ∀ (ops : List (TOp τ)) (w : TWorld τ) (t : Tymer τ),
     (∀ op ∈ ops, op.tymeOrRestart = true) → t.stop - t.start = D →
     ∃ w' t', texec w t ops = some (w', t') ∧ t'.wound = t.wound ∧
-      t'.start = t.start + (restartsIn ops : Int) * D ∧ t'.stop = t.stop + (restartsIn ops : Int) * D
+      t'.start = t.start + (restartsIn ops : τ) * D ∧ t'.stop = t.stop + (restartsIn ops : τ) * D
   | [], w, t, _, _ => ⟨w, t, rfl, rfl, by simp [restartsIn], by simp [restartsIn]⟩
   | op :: ops, w, t, hall, hD => by
     have hop := hall op (List.mem_cons_self)
@@ -572,32 +580,32 @@ theorem texec_restarts (D : Int) : ∀ (ops : List TOp) (w : TWorld) (t : Tymer)
       cases d with
       | some d => simp [TOp.tymeOrRestart] at hop
       | none =>
-        have hD' : ({ t with start := t.stop, stop := t.stop + durOr none t.duration } : Tymer).stop
-            - ({ t with start := t.stop, stop := t.stop + durOr none t.duration } : Tymer).start = D := by
-          simp only [durOr, Tymer.duration]; omega
+        have hD' : ({ t with start := t.stop, stop := t.stop + durOr none t.duration } : Tymer τ).stop
+            - ({ t with start := t.stop, stop := t.stop + durOr none t.duration } : Tymer τ).start = D := by
+          simp only [durOr, Tymer.duration]; oarith
         obtain ⟨w', t', h1, h2, h3, h4⟩ := texec_restarts D ops w _ hrest hD'
         refine ⟨w', t', by simp only [texec, tstep, Tymer.restartOp, Tymer.startOp]; exact h1, h2, ?_, ?_⟩
-        · rw [h3]; simp only [restartsIn, nat_succ_mul]; omega
-        · rw [h4]; simp only [restartsIn, nat_succ_mul, durOr, Tymer.duration]; omega
+        · rw [h3]; simp only [restartsIn, nat_succ_mul]; oarith
+        · rw [h4]; simp only [restartsIn, nat_succ_mul, durOr, Tymer.duration]; oarith
 
 /-! ## C08: MonoTimer -/
 
-theorem realElapsed_nonneg : ∀ (rs : List Int) (ℓ : Int), 0 ≤ realElapsed ℓ rs
+theorem realElapsed_nonneg : ∀ (rs : List τ) (ℓ : τ), 0 ≤ realElapsed ℓ rs
   | [], _ => by simp [realElapsed]
-  | r :: rs, ℓ => by have := realElapsed_nonneg rs r; simp only [realElapsed]; omega
+  | r :: rs, ℓ => by have := realElapsed_nonneg rs r; simp only [realElapsed]; oarith
 
 /-- one observation never moves elapsed down nor remaining up, and reports the timer's own `last - start` / `last ≥ stop` -/
-theorem mstep_obs {σ} (clk : Clock σ) (m m' : Mono) (c c' : σ) (op : MOp) (v : MVal) (hop : op.isObs = true)
+theorem mstep_obs {σ} (clk : Clock τ σ) (m m' : Mono τ) (c c' : σ) (op : MOp τ) (v : MVal τ) (hop : op.isObs = true)
     (h : mstep clk m c op = some (v, m', c')) :
     m.last - m.start ≤ m'.last - m'.start ∧ m.last - m.stop ≤ m'.last - m'.stop ∧
       (∀ x, elapsedVal? op (some (v, c')) = some x → x = m'.last - m'.start) ∧
       (∀ b, expiredVal? op (some (v, c')) = some b → b = decide (m'.stop ≤ m'.last)) := by
-  have key : ∀ (r l : Int) (m1 : Mono), m.latest r = .ok (l, m1) →
+  have key : ∀ (r l : τ) (m1 : Mono τ), m.latest r = .ok (l, m1) →
       l = m1.last ∧ m.last - m.start ≤ m1.last - m1.start ∧ m.last - m.stop ≤ m1.last - m1.stop := by
     intro r l m1 hl
     obtain ⟨h1, hs⟩ := Mono.latest_ok hl
-    have := hs.rem; have := hs.ela; have := hs.last
-    omega
+    have := hs.rem; have := hs.ela; have hl' := hs.last
+    exact ⟨by rw [h1, hl'], by oarith, by oarith⟩
   cases op with
   | start d s => simp [MOp.isObs] at hop
   | restart d => simp [MOp.isObs] at hop
@@ -605,7 +613,7 @@ theorem mstep_obs {σ} (clk : Clock σ) (m m' : Mono) (c c' : σ) (op : MOp) (v 
     simp only [mstep] at h
     injection h with h; injection h with h1 h; injection h with h2 h3
     subst h2
-    exact ⟨by omega, by omega, by intro x hx; simp [elapsedVal?] at hx, by intro b hb; simp [expiredVal?] at hb⟩
+    exact ⟨by oarith, by oarith, by intro x hx; simp [elapsedVal?] at hx, by intro b hb; simp [expiredVal?] at hb⟩
   | elapsed =>
     simp only [mstep] at h
     split at h
@@ -623,12 +631,12 @@ theorem mstep_obs {σ} (clk : Clock σ) (m m' : Mono) (c c' : σ) (op : MOp) (v 
           rw [← h1] at hx
           simp only [elapsedVal?] at hx
           injection hx with hx
-          omega
+          oarith
         · cases hl
       · injection h with h; injection h with h1 h; injection h with h2 h3
         subst h2
         rw [← h1]
-        exact ⟨by omega, by omega, by intro x hx; simp [elapsedVal?] at hx, by intro b hb; simp [expiredVal?] at hb⟩
+        exact ⟨by oarith, by oarith, by intro x hx; simp [elapsedVal?] at hx, by intro b hb; simp [expiredVal?] at hb⟩
   | remaining =>
     simp only [mstep] at h
     split at h
@@ -645,7 +653,7 @@ theorem mstep_obs {σ} (clk : Clock σ) (m m' : Mono) (c c' : σ) (op : MOp) (v 
         · cases hl
       · injection h with h; injection h with h1 h; injection h with h2 h3
         subst h2
-        exact ⟨by omega, by omega, by intro x hx; simp [elapsedVal?] at hx, by intro b hb; simp [expiredVal?] at hb⟩
+        exact ⟨by oarith, by oarith, by intro x hx; simp [elapsedVal?] at hx, by intro b hb; simp [expiredVal?] at hb⟩
   | latest =>
     simp only [mstep] at h
     split at h
@@ -658,7 +666,7 @@ theorem mstep_obs {σ} (clk : Clock σ) (m m' : Mono) (c c' : σ) (op : MOp) (v 
         exact ⟨k2, k3, by intro x hx; simp [elapsedVal?] at hx, by intro b hb; simp [expiredVal?] at hb⟩
       · injection h with h; injection h with h1 h; injection h with h2 h3
         subst h2
-        exact ⟨by omega, by omega, by intro x hx; simp [elapsedVal?] at hx, by intro b hb; simp [expiredVal?] at hb⟩
+        exact ⟨by oarith, by oarith, by intro x hx; simp [elapsedVal?] at hx, by intro b hb; simp [expiredVal?] at hb⟩
   | expired =>
     simp only [mstep] at h
     split at h
@@ -681,12 +689,12 @@ theorem mstep_obs {σ} (clk : Clock σ) (m m' : Mono) (c c' : σ) (op : MOp) (v 
       · injection h with h; injection h with h1 h; injection h with h2 h3
         subst h2
         rw [← h1]
-        exact ⟨by omega, by omega, by intro x hx; simp [elapsedVal?] at hx, by intro b hb; simp [expiredVal?] at hb⟩
+        exact ⟨by oarith, by oarith, by intro x hx; simp [elapsedVal?] at hx, by intro b hb; simp [expiredVal?] at hb⟩
 
 
 /-- between two start/restart calls: the `elapsed` results are non-decreasing (and never below the timer's current
 elapsed), for every clock and every timer (retro or not) -/
-theorem mrun_elapsed_sorted {σ} (clk : Clock σ) : ∀ (ops : List MOp) (m : Mono) (c : σ),
+theorem mrun_elapsed_sorted {σ} (clk : Clock τ σ) : ∀ (ops : List (MOp τ)) (m : Mono τ) (c : σ),
     (∀ op ∈ ops, op.isObs = true) →
     List.Pairwise (· ≤ ·) (elapsedVals ops (mrun clk m c ops)) ∧
       ∀ v ∈ elapsedVals ops (mrun clk m c ops), m.last - m.start ≤ v
@@ -697,7 +705,7 @@ theorem mrun_elapsed_sorted {σ} (clk : Clock σ) : ∀ (ops : List MOp) (m : Mo
     unfold mrun
     cases hs : mstep clk m c op with
     | none =>
-      have : elapsedVal? op (none : Option (MVal × σ)) = none := by cases op <;> rfl
+      have : elapsedVal? op (none : Option (MVal τ × σ)) = none := by cases op <;> rfl
       simp [elapsedVals, this]
     | some p =>
       obtain ⟨v, m', c'⟩ := p
@@ -705,17 +713,17 @@ theorem mrun_elapsed_sorted {σ} (clk : Clock σ) : ∀ (ops : List MOp) (m : Mo
       obtain ⟨ih1, ih2⟩ := mrun_elapsed_sorted clk ops m' c' hrest
       simp only [elapsedVals]
       cases he : elapsedVal? op (some (v, c')) with
-      | none => exact ⟨ih1, fun x hx => by have := ih2 x hx; omega⟩
+      | none => exact ⟨ih1, fun x hx => by have := ih2 x hx; oarith⟩
       | some x =>
         have hx := k3 x he
-        refine ⟨List.pairwise_cons.2 ⟨fun y hy => by have := ih2 y hy; omega, ih1⟩, ?_⟩
+        refine ⟨List.pairwise_cons.2 ⟨fun y hy => by have := ih2 y hy; oarith, ih1⟩, ?_⟩
         intro y hy
         rcases List.mem_cons.1 hy with rfl | hy
-        · omega
-        · have := ih2 y hy; omega
+        · oarith
+        · have := ih2 y hy; oarith
 
 /-- between two start/restart calls: once `expired` has been reported true it is never reported false again -/
-theorem mrun_expired_monotone {σ} (clk : Clock σ) : ∀ (ops : List MOp) (m : Mono) (c : σ),
+theorem mrun_expired_monotone {σ} (clk : Clock τ σ) : ∀ (ops : List (MOp τ)) (m : Mono τ) (c : σ),
     (∀ op ∈ ops, op.isObs = true) →
     List.Pairwise (fun a b => a = true → b = true) (expiredVals ops (mrun clk m c ops)) ∧
       ∀ b ∈ expiredVals ops (mrun clk m c ops), m.stop ≤ m.last → b = true
@@ -726,7 +734,7 @@ theorem mrun_expired_monotone {σ} (clk : Clock σ) : ∀ (ops : List MOp) (m : 
     unfold mrun
     cases hs : mstep clk m c op with
     | none =>
-      have : expiredVal? op (none : Option (MVal × σ)) = none := by cases op <;> rfl
+      have : expiredVal? op (none : Option (MVal τ × σ)) = none := by cases op <;> rfl
       simp [expiredVals, this]
     | some p =>
       obtain ⟨v, m', c'⟩ := p
@@ -734,44 +742,44 @@ theorem mrun_expired_monotone {σ} (clk : Clock σ) : ∀ (ops : List MOp) (m : 
       obtain ⟨ih1, ih2⟩ := mrun_expired_monotone clk ops m' c' hrest
       simp only [expiredVals]
       cases he : expiredVal? op (some (v, c')) with
-      | none => exact ⟨ih1, fun x hx hm => ih2 x hx (by omega)⟩
+      | none => exact ⟨ih1, fun x hx hm => ih2 x hx (by oarith)⟩
       | some x =>
         have hx := k4 x he
         refine ⟨List.pairwise_cons.2 ⟨fun y hy hxt => ih2 y hy (by rw [hx] at hxt; simpa using hxt), ih1⟩, ?_⟩
         intro y hy hm
         rcases List.mem_cons.1 hy with rfl | hy
-        · rw [hx]; simp; omega
-        · exact ih2 y hy (by omega)
+        · rw [hx]; simp; oarith
+        · exact ih2 y hy (by oarith)
 
 /-- a retro timer fed any readings and restarts: it never raises, keeps its duration `D`, and its elapsed / remaining are
 the real elapsed time over the readings, shifted by one duration per restart -/
-theorem feed_exact (D : Int) : ∀ (es : List MEv) (m : Mono), m.retro = true → m.stop - m.start = D →
+theorem feed_exact (D : τ) : ∀ (es : List (MEv τ)) (m : Mono τ), m.retro = true → m.stop - m.start = D →
     ∃ m', m.feed es = .ok m' ∧ m'.retro = true ∧ m'.stop - m'.start = D ∧
-      m'.last - m'.start = (m.last - m.start) + realElapsed m.last (readsOf es) - (restartsOf es : Int) * D ∧
-      m'.stop - m'.last = (m.stop - m.last) - realElapsed m.last (readsOf es) + (restartsOf es : Int) * D
+      m'.last - m'.start = (m.last - m.start) + realElapsed m.last (readsOf es) - (restartsOf es : τ) * D ∧
+      m'.stop - m'.last = (m.stop - m.last) - realElapsed m.last (readsOf es) + (restartsOf es : τ) * D
   | [], m, h, hD => ⟨m, rfl, h, hD, by simp [readsOf, realElapsed, restartsOf], by simp [readsOf, realElapsed, restartsOf]⟩
   | .read r :: es, m, h, hD => by
     obtain ⟨m1, hl⟩ := m.latest_retro r h
     have hs := (Mono.latest_ok hl).2
     obtain ⟨m', h1, h2, h3, h4, h5⟩ := feed_exact D es m1 (by rw [hs.retro, h]) (by rw [hs.dur, hD])
     refine ⟨m', by simp only [Mono.feed, hl]; exact h1, h2, h3, ?_, ?_⟩
-    · have := hs.ela; have := hs.last; simp only [readsOf, realElapsed, restartsOf]; rw [h4, hs.last]; omega
-    · have := hs.rem; have := hs.last; simp only [readsOf, realElapsed, restartsOf]; rw [h5, hs.last]; omega
+    · have := hs.ela; have := hs.last; simp only [readsOf, realElapsed, restartsOf]; rw [h4, hs.last]; oarith
+    · have := hs.rem; have := hs.last; simp only [readsOf, realElapsed, restartsOf]; rw [h5, hs.last]; oarith
   | .restart :: es, m, h, hD => by
     have hD' : (m.restart none).stop - (m.restart none).start = D := by
-      simp only [Mono.restart, Mono.startAt, Mono.duration, durOr]; omega
+      simp only [Mono.restart, Mono.startAt, Mono.duration, durOr]; oarith
     obtain ⟨m', h1, h2, h3, h4, h5⟩ := feed_exact D es (m.restart none) h hD'
     refine ⟨m', by simp only [Mono.feed]; exact h1, h2, h3, ?_, ?_⟩
-    · rw [h4]; simp only [readsOf, restartsOf, nat_succ_mul, Mono.restart, Mono.startAt, Mono.duration, durOr]; omega
-    · rw [h5]; simp only [readsOf, restartsOf, nat_succ_mul, Mono.restart, Mono.startAt, Mono.duration, durOr]; omega
+    · rw [h4]; simp only [readsOf, restartsOf, nat_succ_mul, Mono.restart, Mono.startAt, Mono.duration, durOr]; oarith
+    · rw [h5]; simp only [readsOf, restartsOf, nat_succ_mul, Mono.restart, Mono.startAt, Mono.duration, durOr]; oarith
 
 
-theorem realElapsed_snoc : ∀ (rs : List Int) (ℓ r : Int),
+theorem realElapsed_snoc : ∀ (rs : List τ) (ℓ r : τ),
     realElapsed ℓ (rs ++ [r]) = realElapsed ℓ rs + max 0 (r - lastReading ℓ rs)
   | [], ℓ, r => by simp [realElapsed, lastReading]
-  | x :: rs, ℓ, r => by simp only [List.cons_append, realElapsed, lastReading, realElapsed_snoc rs x r]; omega
+  | x :: rs, ℓ, r => by simp only [List.cons_append, realElapsed, lastReading, realElapsed_snoc rs x r]; oarith
 
-theorem feed_last : ∀ (es : List MEv) (m m' : Mono), m.feed es = .ok m' → m'.last = lastReading m.last (readsOf es)
+theorem feed_last : ∀ (es : List (MEv τ)) (m m' : Mono τ), m.feed es = .ok m' → m'.last = lastReading m.last (readsOf es)
   | [], m, m', h => by simp only [Mono.feed] at h; injection h with h; subst h; rfl
   | .read r :: es, m, m', h => by
     simp only [Mono.feed] at h
